@@ -77,7 +77,7 @@ func init() {
 		})
 }
 
-var trieThreshDirs = []string{"pkg/trie/inmemory", "pkg/trie/node", "pkg/trie/inmemory/proof", "pkg/trie/triedb", "pkg/trie/triedb/codec", "pkg/trie/triedb/proof"}
+var trieThreshDirs = []string{"pkg/trie/inmemory", "pkg/trie/node", "pkg/trie/inmemory/proof", "pkg/trie/triedb", "pkg/trie/triedb/codec", "pkg/trie/triedb/proof", "pkg/trie/triedb/nibbles"}
 
 func init() {
 	register("C06", "threshold agreement between the two trie engines and the specification (R-THRESH) + header variant tables (R-VARIANT)",
@@ -93,6 +93,9 @@ func init() {
 			c.ruleTriedb()
 			c.ruleCommitOrder()
 			c.min("R-COMMITORDER", 1)
+			c.ruleFixCursor()
+			c.ruleFreshAppendBase()
+			c.ruleValueCopyMutator("R-VALUECOPY", triedbDir)
 			c.min("R-KEYMATCH/triedb", 3)
 			c.min("R-NEWVALUE", 3)
 		})
